@@ -398,7 +398,7 @@ func ruleNoEmpty(w *World, r *Report, pkg *ssa.Package, tag string, fRemove, fAd
 		}
 	}
 	// scalar diff: empty exactly when Equals
-	if fn := pkg.Func("diff"); fn != nil && len(fn.Params) >= 2 {
+	if fn := w.FuncOpt(pkg, "diff"); fn != nil && len(fn.Params) >= 2 {
 		r.Fn(fnName(fn))
 		ok, why := false, "no branch on Equals(a, b) found"
 		for _, b := range fn.Blocks {
@@ -577,7 +577,7 @@ func extractKinds(w *World, pkg *ssa.Package) *kindTables {
 		}
 	}
 	// dispatch
-	if fn := pkg.Func("dispatch"); fn != nil {
+	if fn := w.FuncOpt(pkg, "dispatch"); fn != nil {
 		for _, b := range fn.Blocks {
 			for _, in := range b.Instrs {
 				ret, ok := in.(*ssa.Return)
@@ -960,10 +960,79 @@ func paramByName(fn *ssa.Function, name string) *ssa.Parameter {
 // one line of context on each side.
 func ruleListDiff(w *World, r *Report, pkg *ssa.Package) {
 	fnDiff := w.Method(pkg, "jsonList", "diff")
-	fnRest := w.Method(pkg, "jsonList", "diffRest")
+	// the walk set: the functions of the package the list diff reaches by
+	// static calls (the hunk walk and whatever it has been split into); the
+	// walkers are those that take the two hash sequences and the common
+	// subsequence (three consecutive []interface{} parameters)
+	walkSet := []*ssa.Function{}
+	{
+		seen := map[*ssa.Function]bool{fnDiff: true}
+		work := []*ssa.Function{fnDiff}
+		for len(work) > 0 {
+			f := work[0]
+			work = work[1:]
+			walkSet = append(walkSet, f)
+			withClosures(f, func(g *ssa.Function) {
+				allInstrs(g, func(in ssa.Instruction) {
+					c, ok := in.(ssa.CallInstruction)
+					if !ok {
+						return
+					}
+					sf := staticCallee(c)
+					if sf == nil || sf.Blocks == nil || sf.Parent() != nil || fnPkg(sf) != pkg.Pkg || seen[sf] {
+						return
+					}
+					seen[sf] = true
+					work = append(work, sf)
+				})
+			})
+		}
+	}
+	var walkers []*ssa.Function
+	for _, f := range walkSet {
+		if f != fnDiff && len(seqParams(f)) == 3 {
+			walkers = append(walkers, f)
+		}
+	}
+	if len(walkers) == 0 {
+		infra("R-LCSDEP: the list diff reaches no function taking the two hash sequences and the common subsequence")
+	}
+	isWalker := func(f *ssa.Function) bool {
+		for _, g := range walkers {
+			if g == f {
+				return true
+			}
+		}
+		return false
+	}
+	fnRest := walkers[0]
 	r.Fn(fnName(fnDiff))
-	r.Fn(fnName(fnRest))
+	for _, f := range walkers {
+		r.Fn(fnName(f))
+	}
 	h := newHunkType(pkg)
+	// slot labels of a walker's parameters (names are labels only)
+	slotLabels := func(f *ssa.Function) map[int]string {
+		labels := map[int]string{}
+		seqIdx := seqParams(f)
+		if len(seqIdx) == 3 {
+			labels[seqIdx[0]], labels[seqIdx[1]], labels[seqIdx[2]] = "aHashes", "bHashes", "commonSequence"
+		}
+		for i, p := range f.Params {
+			if i == 0 || labels[i] != "" {
+				continue
+			}
+			switch {
+			case typeName(p.Type()) == "jsonList":
+				labels[i] = "b"
+			case typeName(p.Type()) == "patchStrategy":
+				labels[i] = "strategy"
+			case strings.HasPrefix(p.Type().String(), "[]") && strings.HasSuffix(p.Type().String(), ".Option"):
+				labels[i] = "options"
+			}
+		}
+		return labels
+	}
 	// R-LCSDEP
 	{
 		const rule = "R-LCSDEP"
@@ -971,18 +1040,22 @@ func ruleListDiff(w *World, r *Report, pkg *ssa.Package) {
 		recv, other := fnDiff.Params[0], fnDiff.Params[1]
 		var call *ssa.Call
 		allInstrs(fnDiff, func(in ssa.Instruction) {
-			if c, ok := in.(*ssa.Call); ok && staticCallee(c) == fnRest {
+			if c, ok := in.(*ssa.Call); ok && staticCallee(c) != nil && isWalker(staticCallee(c)) {
 				call = c
+				fnRest = staticCallee(c)
 			}
 		})
 		if call == nil {
 			r.Bad(rule, fnName(fnDiff)+"→diffRest", w.Pos(fnDiff.Pos()), "the list diff no longer hands its work to diffRest")
 		} else {
+			// the three consecutive []interface{} parameters of diffRest are, in
+			// order, the receiver's hashes, the argument's hashes and the common
+			// subsequence (names are labels only)
+			seqIdx := seqParams(fnRest)
 			slot := func(name string) ssa.Value {
-				for i, p := range fnRest.Params {
-					if p.Name() == name && i < len(call.Call.Args) {
-						return call.Call.Args[i]
-					}
+				k := map[string]int{"aHashes": 0, "bHashes": 1, "commonSequence": 2}[name]
+				if len(seqIdx) == 3 && seqIdx[k] < len(call.Call.Args) {
+					return call.Call.Args[seqIdx[k]]
 				}
 				return nil
 			}
@@ -999,41 +1072,81 @@ func ruleListDiff(w *World, r *Report, pkg *ssa.Package) {
 				r.Check(ra[recv] && !ra[other] && rb[other] && !rb[recv], rule, fnName(fnDiff)+":hash-sequences-per-side", pos,
 					"aHashes is built from the receiver's elements only, bHashes from the argument's elements only",
 					"the per-side hash sequences are mixed up or built from the wrong array")
-				// the LCS is computed over the very sequences the walk compares against
-				sameSeq := false
-				// the producer: follow method receivers back to the function call that made the LCS object
-				var prod *ssa.Call
-				for v, guard := strip(cs), 0; guard < 6; guard++ {
-					c, ok := v.(*ssa.Call)
-					if !ok {
-						break
+				// the common subsequence is, on every path, the result of the LCS
+				// library over the very sequences the walk compares against
+				// (directly, or through helpers all of whose returns are that)
+				var isLCS func(v, sa, sb ssa.Value, depth int) (bool, string)
+				isLCS = func(v, sa, sb ssa.Value, depth int) (bool, string) {
+					v = strip(v)
+					if depth > 3 {
+						return false, "helper nesting too deep"
 					}
-					if sf := staticCallee(c); sf != nil && sf.Signature.Recv() != nil && len(c.Call.Args) > 0 {
-						v = strip(c.Call.Args[0])
-						continue
-					}
-					if c.Call.IsInvoke() {
-						v = strip(c.Call.Value)
-						continue
-					}
-					prod = c
-					break
-				}
-				if prod != nil {
-					hasA, hasB := false, false
-					for _, a := range prod.Call.Args {
-						if strip(a) == strip(ah) {
-							hasA = true
+					switch x := v.(type) {
+					case *ssa.Phi:
+						for _, e := range x.Edges {
+							if ok, why := isLCS(e, sa, sb, depth); !ok {
+								return false, why
+							}
 						}
-						if strip(a) == strip(bh) {
-							hasB = true
+						return true, ""
+					case *ssa.Call:
+						// method chain on the LCS object: follow the receiver
+						if x.Call.IsInvoke() {
+							if mp := x.Call.Method.Pkg(); mp == nil || !strings.Contains(mp.Path(), "golcs") {
+								return false, "result of " + x.Call.Method.FullName()
+							}
+							return isLCS(x.Call.Value, sa, sb, depth)
 						}
+						sf := staticCallee(x)
+						if sf == nil {
+							return false, "result of a dynamic call"
+						}
+						if pk := fnPkg(sf); pk != nil && strings.Contains(pk.Path(), "golcs") {
+							if sf.Signature.Recv() != nil && len(x.Call.Args) > 0 {
+								return isLCS(x.Call.Args[0], sa, sb, depth)
+							}
+							hasA, hasB := false, false
+							for _, arg := range x.Call.Args {
+								if strip(arg) == strip(sa) {
+									hasA = true
+								}
+								if strip(arg) == strip(sb) {
+									hasB = true
+								}
+							}
+							if hasA && hasB {
+								return true, ""
+							}
+							return false, "the LCS is computed over other sequences than the ones the walk compares against"
+						}
+						if fnPkg(sf) != pkg.Pkg || sf.Blocks == nil {
+							return false, "result of " + fnName(sf)
+						}
+						ia, ib := -1, -1
+						for i, arg := range x.Call.Args {
+							if strip(arg) == strip(sa) {
+								ia = i
+							}
+							if strip(arg) == strip(sb) {
+								ib = i
+							}
+						}
+						if ia < 0 || ib < 0 || ia >= len(sf.Params) || ib >= len(sf.Params) {
+							return false, fnName(sf) + " does not receive both hash sequences"
+						}
+						for _, ret := range returnsOf(sf) {
+							if ok, why := isLCS(ret.Results[0], sf.Params[ia], sf.Params[ib], depth+1); !ok {
+								return false, "a return of " + fnName(sf) + " is not the LCS: " + why
+							}
+						}
+						return true, ""
 					}
-					sameSeq = hasA && hasB
+					return false, valueName(v)
 				}
+				sameSeq, whyLCS := isLCS(cs, ah, bh, 0)
 				r.Check(sameSeq, rule, fnName(fnDiff)+":lcs-over-the-walked-sequences", pos,
 					"the call that computes the common subsequence receives exactly the two hash sequences the hunk walk uses",
-					"the common subsequence is computed over other sequences than the ones the hunk walk compares against (filtered, truncated or re-hashed): common elements are missed and the edit script is not minimal")
+					"the common subsequence is not, on every path, the longest common subsequence of the sequences the hunk walk compares against ("+whyLCS+"): common elements are missed and the edit script is not minimal")
 				// both hash sequences are made of element hashCodes
 				okH := true
 				for _, hv := range []ssa.Value{ah, bh} {
@@ -1048,79 +1161,220 @@ func ruleListDiff(w *World, r *Report, pkg *ssa.Package) {
 				r.Check(okH, rule, fnName(fnDiff)+":hash-sequences-are-element-hashes", pos, "both sequences consist of the elements' hashCodes", "a hash sequence is not built from the elements' hashCodes")
 			}
 		}
-		// recursion: each slot is re-sliced from the function's own parameter
-		dr := NewDeriv(w, fnRest)
+		// continuation: behind a hunk the walk goes on with the rest of the
+		// caller's own sequences — by a call from one walker to a walker
+		// (recursion, or a driver loop feeding a step function), or by
+		// re-binding the walker's own variables inside a loop
 		n := 0
-		allInstrs(fnRest, func(in ssa.Instruction) {
-			c, ok := in.(*ssa.Call)
-			if !ok || staticCallee(c) != fnRest {
-				return
+		for _, f := range walkers {
+			dr := NewDeriv(w, f)
+			fl := slotLabels(f)
+			byLabel := map[string]*ssa.Parameter{}
+			for i, l := range fl {
+				byLabel[l] = f.Params[i]
 			}
-			n++
-			for i, p := range fnRest.Params {
-				switch p.Name() {
-				case "aHashes", "bHashes", "commonSequence", "b", "options", "strategy":
-					roots := dr.Roots(c.Call.Args[i])
-					r.Check(roots[p], rule, fmt.Sprintf("%s→diffRest[%s]", fnName(fnRest), p.Name()), w.Pos(c.Pos()),
-						"the continuation of the walk receives the rest of the caller's own "+p.Name(),
-						"the continuation of the walk does not receive the caller's own "+p.Name())
+			withClosures(f, func(cf *ssa.Function) {
+				allInstrs(cf, func(in ssa.Instruction) {
+					c, ok := in.(*ssa.Call)
+					if !ok || staticCallee(c) == nil || !isWalker(staticCallee(c)) {
+						return
+					}
+					g := staticCallee(c)
+					n++
+					gl := slotLabels(g)
+					var idx []int
+					for i := range gl {
+						idx = append(idx, i)
+					}
+					sort.Ints(idx)
+					for _, i := range idx {
+						p := byLabel[gl[i]]
+						if p == nil || i >= len(c.Call.Args) {
+							continue
+						}
+						roots := dr.Roots(c.Call.Args[i])
+						r.Check(roots[p], rule, fmt.Sprintf("%s→%s[%s]", fnName(f), g.Name(), gl[i]), w.Pos(c.Pos()),
+							"the continuation of the walk receives the rest of the caller's own "+gl[i],
+							"the continuation of the walk does not receive the caller's own "+gl[i])
+					}
+				})
+			})
+		}
+		if n == 0 {
+			// iterative form: every sequence slot is re-bound, inside a loop, to
+			// something derived from itself
+			for _, f := range walkers {
+				dr := NewDeriv(w, f)
+				fl := slotLabels(f)
+				var idx []int
+				for i := range fl {
+					idx = append(idx, i)
+				}
+				sort.Ints(idx)
+				rebound := 0
+				for _, i := range idx {
+					label := fl[i]
+					if label == "strategy" || label == "options" {
+						continue
+					}
+					p := f.Params[i]
+					var next []ssa.Value
+					var at token.Pos
+					withClosures(f, func(cf *ssa.Function) {
+						allInstrs(cf, func(in ssa.Instruction) {
+							switch y := in.(type) {
+							case *ssa.Phi:
+								has := false
+								for _, e := range y.Edges {
+									if strip(e) == ssa.Value(p) {
+										has = true
+									}
+								}
+								if has {
+									for _, e := range y.Edges {
+										if strip(e) != ssa.Value(p) && e != ssa.Value(y) {
+											next = append(next, e)
+											at = y.Pos()
+										}
+									}
+								}
+							case *ssa.Store:
+								if strip(y.Val) != ssa.Value(p) {
+									return
+								}
+								cell, ok := y.Addr.(*ssa.Alloc)
+								if !ok {
+									return
+								}
+								for _, ref := range *cell.Referrers() {
+									if st, ok := ref.(*ssa.Store); ok && st != y && st.Addr == ssa.Value(cell) {
+										next = append(next, st.Val)
+										at = st.Pos()
+									}
+								}
+							}
+						})
+					})
+					if len(next) == 0 {
+						continue
+					}
+					rebound++
+					ok := true
+					for _, v := range next {
+						if !dr.Roots(v)[p] {
+							ok = false
+						}
+					}
+					r.Check(ok, rule, fmt.Sprintf("%s→%s[%s]", fnName(f), f.Name(), label), w.Pos(at),
+						"the next round of the walk goes on with the rest of its own "+label,
+						"the next round of the walk does not go on with its own "+label)
+				}
+				if rebound >= 4 {
+					n++
 				}
 			}
-		})
+		}
 		if n == 0 {
-			r.Bad(rule, fnName(fnRest)+":continuation", w.Pos(fnRest.Pos()), "diffRest no longer continues the walk behind a hunk")
+			r.Bad(rule, fnName(fnRest)+":continuation", w.Pos(fnRest.Pos()), "the hunk walk no longer continues behind a hunk (neither by a call between the walk functions nor by re-binding its sequences in a loop)")
 		}
 		// same-kind containers at the same position are diffed recursively, under sameContainerType
 		okRec := false
-		withClosures(fnRest, func(f *ssa.Function) {
-			allInstrs(f, func(in ssa.Instruction) {
-				c, ok := in.(*ssa.Call)
-				if !ok || !c.Call.IsInvoke() || c.Call.Method.Name() != "diff" {
+		for _, wf := range walkSet {
+			withClosures(wf, func(f *ssa.Function) {
+				if wf == fnDiff {
 					return
 				}
-				for _, b := range f.Blocks {
-					cond, tE, _, okb := branchEdges(b)
-					if !okb {
-						continue
+				allInstrs(f, func(in ssa.Instruction) {
+					c, ok := in.(*ssa.Call)
+					if !ok || !c.Call.IsInvoke() || c.Call.Method.Name() != "diff" {
+						return
 					}
-					cc, isC := cond.(*ssa.Call)
-					if !isC {
-						continue
+					for _, b := range f.Blocks {
+						cond, tE, _, okb := branchEdges(b)
+						if !okb {
+							continue
+						}
+						cc, isC := cond.(*ssa.Call)
+						if !isC {
+							continue
+						}
+						if sf := staticCallee(cc); sf != nil && w.helperIs(sf, "sameContainerType") && edgeDominatesOrSame(tE, c.Block()) {
+							okRec = true
+						}
 					}
-					if sf := staticCallee(cc); sf != nil && sf.Name() == "sameContainerType" && edgeDominatesOrSame(tE, c.Block()) {
-						okRec = true
-					}
-				}
+				})
 			})
-		})
+		}
 		r.Check(okRec, rule, fnName(fnRest)+":same-kind-recursion", w.Pos(fnRest.Pos()), "containers of the same kind at the same position are diffed recursively (on the sameContainerType-true edge)",
 			"same-position containers are no longer diffed recursively: they are replaced wholesale")
 	}
 	// same-kind test looks at kinds only
 	{
 		const rule = "R-LCSDEP"
-		if sct := pkg.Func("sameContainerType"); sct != nil {
+		if sct := w.FuncOpt(pkg, "sameContainerType"); sct != nil {
 			r.Fn(fnName(sct))
+			// the fact: nothing in the test (or in the helpers it calls, other
+			// than dispatch) reads the contents of a node — no indexing, ranging,
+			// length, or method call on a node; only type assertions / switches
 			bad := ""
-			for _, b := range sct.Blocks {
-				cond, _, _, ok := branchEdges(b)
-				if !ok {
-					continue
-				}
-				ex, isEx := cond.(*ssa.Extract)
-				if isEx {
-					if _, isTA := ex.Tuple.(*ssa.TypeAssert); isTA {
-						continue
-					}
-				}
-				bad = w.Pos(b.Instrs[len(b.Instrs)-1].Pos())
+			disp := w.FuncOpt(pkg, "dispatch")
+			seenF := map[*ssa.Function]bool{sct: true}
+			workF := []*ssa.Function{sct}
+			for len(workF) > 0 {
+				f := workF[0]
+				workF = workF[1:]
+				withClosures(f, func(cf *ssa.Function) {
+					allInstrs(cf, func(in ssa.Instruction) {
+						flag := func() {
+							if bad == "" {
+								bad = w.Pos(in.Pos())
+							}
+						}
+						switch y := in.(type) {
+						case *ssa.Range:
+							flag()
+						case *ssa.Lookup:
+							flag()
+						case *ssa.Index:
+							flag()
+						case *ssa.IndexAddr:
+							if _, isAlloc := y.X.(*ssa.Alloc); !isAlloc {
+								if _, isGlobal := y.X.(*ssa.Global); !isGlobal {
+									flag()
+								}
+							}
+						case ssa.CallInstruction:
+							com := y.Common()
+							if com.IsInvoke() {
+								flag()
+								return
+							}
+							if bi, ok := com.Value.(*ssa.Builtin); ok {
+								if bi.Name() == "len" || bi.Name() == "cap" {
+									flag()
+								}
+								return
+							}
+							sf := staticCallee(y)
+							if sf == nil {
+								flag()
+								return
+							}
+							if sf == disp || fnPkg(sf) != pkg.Pkg {
+								return
+							}
+							if sf.Signature.Recv() != nil || sf.Blocks == nil {
+								flag() // a method of a node type reads the node
+								return
+							}
+							if !seenF[sf] && len(seenF) < 8 {
+								seenF[sf] = true
+								workF = append(workF, sf)
+							}
+						}
+					})
+				})
 			}
-			allInstrs(sct, func(in ssa.Instruction) {
-				switch in.(type) {
-				case *ssa.Range, *ssa.Lookup, *ssa.Index, *ssa.IndexAddr:
-					bad = w.Pos(in.Pos())
-				}
-			})
 			r.Check(bad == "", rule, fnName(sct)+":kinds-only", w.Pos(sct.Pos()), "whether two nodes are containers of the same kind is decided by type assertions only",
 				"the same-kind test inspects the containers' contents (at "+bad+"): some same-kind containers at the same position are replaced wholesale instead of being diffed recursively")
 		} else {
@@ -1132,9 +1386,15 @@ func ruleListDiff(w *World, r *Report, pkg *ssa.Package) {
 		const rule = "R-CTX1"
 		n := 0
 		for _, f := range []string{"Before", "After"} {
-			for i, fs := range h.fieldStores(fnRest, f) {
+			var stores []fieldStore
+			for _, wf := range walkSet {
+				if wf != fnDiff {
+					stores = append(stores, h.fieldStores(wf, f)...)
+				}
+			}
+			for i, fs := range stores {
 				n++
-				key := fmt.Sprintf("%s:%s-store#%d", fnName(fnRest), f, i+1)
+				key := fmt.Sprintf("%s:%s-store#%d", fnName(fs.in), f, i+1)
 				r.Check(oneElemSlice(fs.st.Val, 0), rule, key, w.Pos(fs.st.Pos()), "exactly one line of "+strings.ToLower(f)+" context is recorded",
 					"the "+strings.ToLower(f)+" context stored in a list hunk is not a one-element list")
 			}
@@ -1218,7 +1478,7 @@ func ruleWholeObject(w *World, r *Report, pkg *ssa.Package, tag, fAdd string) {
 						}
 					}
 				case *ssa.Call:
-					if sf := staticCallee(x); sf != nil && sf.Name() == "nodeList" && len(x.Call.Args) == 1 {
+					if sf := staticCallee(x); sf != nil && w.helperIs(sf, "nodeList") && len(x.Call.Args) == 1 {
 						check(x.Call.Args[0], depth+1)
 					}
 				}
@@ -1249,34 +1509,62 @@ func ruleWholeObject(w *World, r *Report, pkg *ssa.Package, tag, fAdd string) {
 // candidate object itself (no synthesised stand-ins for missing keys).
 func ruleIdentProv(w *World, r *Report, pkg *ssa.Package, tag string) {
 	const rule = "R-IDENTPROV"
-	fn := w.MethodOpt(pkg, "jsonObject", "pathIdent")
-	if fn == nil {
-		infra("%s: (jsonObject).pathIdent not found", tag)
+	// the functions that compute a member's identity for the set patch: the
+	// jsonObject methods returning a digest that (jsonSet).patch calls
+	setPatch := w.MethodOpt(pkg, "jsonSet", "patch")
+	if setPatch == nil {
+		infra("%s: (jsonSet).patch not found", tag)
 	}
-	r.Fn(fnName(fn))
-	d := NewDeriv(w, fn)
-	recv := fn.Params[0]
-	n := 0
-	bad := ""
-	allInstrs(fn, func(in ssa.Instruction) {
-		mu, ok := in.(*ssa.MapUpdate)
+	var fns []*ssa.Function
+	seenF := map[*ssa.Function]bool{}
+	allInstrs(setPatch, func(in ssa.Instruction) {
+		c, ok := in.(*ssa.Call)
 		if !ok {
 			return
 		}
-		// only maps whose values are nodes / interface{} (the identity), not bookkeeping maps
-		if mt, ok := mu.Map.Type().Underlying().(*types.Map); ok {
-			if _, isIface := mt.Elem().Underlying().(*types.Interface); !isIface {
+		g := staticCallee(c)
+		if g == nil || g.Blocks == nil || fnPkg(g) != pkg.Pkg || g.Signature.Recv() == nil || seenF[g] {
+			return
+		}
+		if typeName(g.Signature.Recv().Type()) != "jsonObject" || g.Signature.Results().Len() != 1 {
+			return
+		}
+		if a, ok := g.Signature.Results().At(0).Type().Underlying().(*types.Array); !ok || a.Len() != 8 {
+			return
+		}
+		seenF[g] = true
+		fns = append(fns, g)
+	})
+	if len(fns) == 0 {
+		r.Bad(rule, tag+".(jsonSet).patch:member-identity", w.Pos(setPatch.Pos()), "the set patch computes no identity digest of member objects: keyed hunks cannot find their member")
+		return
+	}
+	for _, fn := range fns {
+		r.Fn(fnName(fn))
+		d := NewDeriv(w, fn)
+		recv := fn.Params[0]
+		n := 0
+		bad := ""
+		allInstrs(fn, func(in ssa.Instruction) {
+			mu, ok := in.(*ssa.MapUpdate)
+			if !ok {
 				return
 			}
-		}
-		n++
-		if !d.HasRoot(mu.Value, recv) {
-			bad = w.Pos(mu.Pos())
-		}
-	})
-	r.Check(n > 0 && bad == "", rule, fnName(fn)+":identity-is-a-projection", w.Pos(fn.Pos()),
-		"every value entering the member's identity is loaded from the member itself",
-		"a value that does not come from the candidate object enters its identity (at "+bad+"): a keyed hunk can match a member that does not carry the key, and the nested change lands in the wrong object")
+			// only maps whose values are nodes / interface{} (the identity), not bookkeeping maps
+			if mt, ok := mu.Map.Type().Underlying().(*types.Map); ok {
+				if _, isIface := mt.Elem().Underlying().(*types.Interface); !isIface {
+					return
+				}
+			}
+			n++
+			if !d.HasRoot(mu.Value, recv) {
+				bad = w.Pos(mu.Pos())
+			}
+		})
+		r.Check(bad == "", rule, fnName(fn)+":identity-is-a-projection", w.Pos(fn.Pos()),
+			fmt.Sprintf("every value entering the member's identity is loaded from the member itself (%d identity entries built here)", n),
+			"a value that does not come from the candidate object enters its identity (at "+bad+"): a keyed hunk can match a member that does not carry the key, and the nested change lands in the wrong object")
+	}
 }
 
 func isByteType(t types.Type) bool {
@@ -1370,4 +1658,176 @@ func ruleObjRecurse(w *World, r *Report, pkg *ssa.Package, tag string) {
 	}
 	r.Check(!skipped, rule, fnName(fn)+":both-present-keys-are-diffed", w.Pos(call.Pos()), "every key present on both sides reaches the recursive diff of its values",
 		"a key present on both sides can be passed over without diffing its values (and without an Equals check): unequal values under that key produce no hunk")
+}
+
+// seqParams: indices of the []interface{} parameters of fn, in order.
+func seqParams(fn *ssa.Function) []int {
+	var out []int
+	for i, p := range fn.Params {
+		if sl, ok := p.Type().Underlying().(*types.Slice); ok {
+			if it, ok := sl.Elem().Underlying().(*types.Interface); ok && it.NumMethods() == 0 {
+				out = append(out, i)
+			}
+		}
+	}
+	return out
+}
+
+// ruleDispatchTable: which option makes dispatch read an array as which
+// container — the table the advertised equivalence rests on: SET and
+// SetKeys → set, MULTISET → multiset, none of them → list. The table is
+// extracted from the returns of dispatch: a return of node type X guarded by
+// the true edge of an assertion of an Option element to T, or of a call of a
+// generic in-package test instantiated with T (which itself asserts to its
+// type parameter), gives T → X; the return guarded by none gives "" → X.
+func ruleDispatchTable(w *World, r *Report, pkg *ssa.Package) {
+	const rule = "R-DISPATCH"
+	fn := w.Func(pkg, "dispatch")
+	r.Fn(fnName(fn))
+	opt := pkg.Type("Option")
+	if opt == nil {
+		infra("R-DISPATCH: Option type not found")
+	}
+	// guards: true edges that establish "options contains a T"
+	type guard struct {
+		t string
+		e Edge
+	}
+	var guards []guard
+	for _, b := range fn.Blocks {
+		cond, tE, _, ok := branchEdges(b)
+		if !ok {
+			continue
+		}
+		switch x := cond.(type) {
+		case *ssa.Extract:
+			if ta, ok := x.Tuple.(*ssa.TypeAssert); ok && ta.CommaOk && x.Index == 1 && types.Identical(ta.X.Type(), opt.Type()) {
+				guards = append(guards, guard{typeName(ta.AssertedType), tE})
+			}
+		case *ssa.Call:
+			sf := staticCallee(x)
+			if sf == nil || fnPkg(sf) != pkg.Pkg || len(sf.TypeArgs()) != 1 {
+				continue
+			}
+			// the instance asserts an Option element to its type argument
+			asserts := false
+			allInstrs(sf, func(in ssa.Instruction) {
+				if ta, ok := in.(*ssa.TypeAssert); ok && types.Identical(ta.X.Type(), opt.Type()) && types.Identical(ta.AssertedType, sf.TypeArgs()[0]) {
+					asserts = true
+				}
+			})
+			if asserts {
+				guards = append(guards, guard{typeName(sf.TypeArgs()[0]), tE})
+			}
+		}
+	}
+	table := map[string]map[string]bool{}
+	add := func(k, v string) {
+		if table[k] == nil {
+			table[k] = map[string]bool{}
+		}
+		table[k][v] = true
+	}
+	for _, ret := range returnsOf(fn) {
+		mi, ok := ret.Results[0].(*ssa.MakeInterface)
+		if !ok {
+			continue // the node itself (not an array)
+		}
+		node := typeName(mi.X.Type())
+		guarded := false
+		for _, g := range guards {
+			if g.e.To() == ret.Block() || edgeDominates(g.e, ret.Block()) {
+				add(g.t, node)
+				guarded = true
+			}
+		}
+		if !guarded {
+			add("", node)
+		}
+	}
+	want := map[string]string{"setOption": "jsonSet", "setKeysOption": "jsonSet", "multisetOption": "jsonMultiset", "": "jsonList"}
+	label := map[string]string{"setOption": "SET", "setKeysOption": "SetKeys", "multisetOption": "MULTISET", "": "no array option"}
+	for _, k := range []string{"setOption", "setKeysOption", "multisetOption", ""} {
+		got := sortedKeys(table[k])
+		r.Check(len(got) == 1 && got[0] == want[k], rule, "v2.dispatch:"+label[k], w.Pos(fn.Pos()),
+			fmt.Sprintf("%s makes dispatch read an array as %s", label[k], want[k]),
+			fmt.Sprintf("%s makes dispatch read an array as %v, the advertised reading is %s", label[k], got, want[k]))
+	}
+	for k := range table {
+		if _, ok := want[k]; !ok {
+			r.Bad(rule, "v2.dispatch:"+k, w.Pos(fn.Pos()), fmt.Sprintf("option %s changes the reading of arrays to %v; no such reading is advertised", k, sortedKeys(table[k])))
+		}
+	}
+}
+
+// ruleBagCount: in the multiset diff the number of copies listed as removed
+// (added) is computed from the multiplicities on BOTH sides: the bound of the
+// loop that appends copies to Remove / Add derives from the receiver's and
+// from the argument's members. A bound that depends on one side only lists
+// copies that are present on both sides (the hunk restates common members).
+func ruleBagCount(w *World, r *Report, pkg *ssa.Package, tag, fRemove, fAdd string) {
+	rule := "R-BAGCOUNT"
+	if tag == "lib" {
+		rule += "(lib)"
+	}
+	fn := w.MethodOpt(pkg, "jsonMultiset", "diff")
+	if fn == nil {
+		infra("%s: (jsonMultiset).diff not found", tag)
+	}
+	r.Fn(fnName(fn))
+	h := newHunkType(pkg)
+	d := NewDeriv(w, fn)
+	lps := loopsOf(fn)
+	recv, other := fn.Params[0], fn.Params[1]
+	n := 0
+	for _, f := range []string{fRemove, fAdd} {
+		k := 0
+		for _, fs := range h.fieldStores(fn, f) {
+			if fs.in != fn {
+				continue
+			}
+			l := innermostLoop(lps, fs.st.Block())
+			if l == nil {
+				continue // initialisation
+			}
+			n++
+			k++
+			// operands of the conditions under which the loop is left or entered
+			roots := rootSet{}
+			for b := range l.Blocks {
+				leaves := false
+				for _, sc := range b.Succs {
+					if !l.Blocks[sc] {
+						leaves = true
+					}
+				}
+				if !leaves {
+					continue
+				}
+				cond, _, _, ok := branchEdges(b)
+				if !ok {
+					continue
+				}
+				if bo, ok := cond.(*ssa.BinOp); ok {
+					for rt := range d.Roots(bo.X) {
+						roots[rt] = true
+					}
+					for rt := range d.Roots(bo.Y) {
+						roots[rt] = true
+					}
+				} else {
+					for rt := range d.Roots(cond) {
+						roots[rt] = true
+					}
+				}
+			}
+			key := fmt.Sprintf("%s:%s-copies#%d", fnName(fn), f, k)
+			r.Check(roots[recv] && roots[other], rule, key, w.Pos(fs.st.Pos()),
+				"the number of copies listed depends on the multiplicities on both sides",
+				"the number of copies listed as "+strings.ToLower(f)+"d depends on one side only: copies present on both sides are restated in the hunk")
+		}
+	}
+	if n < 2 {
+		r.Bad(rule, tag+":instance-floor", "-", fmt.Sprintf("only %d copy-listing loops found in the multiset diff", n))
+	}
 }
